@@ -116,6 +116,8 @@ def gen_ws(seed, pid, bias):
         knobs['defaults_split'] = rng.randint(0, 99)
     if rng.random() < bias.get('p_color', 0.08):
         opt['color'] = True
+    if rng.random() < bias.get('p_xml', 0.06):
+        opt['xml'] = True      # the XML report wrapper sits between the result and the formatter
     if rng.random() < bias.get('p_v4', 0.05):
         opt['v'] = 4
         opt['gc_after_test'] = True
